@@ -1,6 +1,6 @@
 """C02 (narrow): NULL-ordering transfer between dialects.  The parser records where NULLs sort in the source dialect
 (`nulls_first`), the generator emits NULLS FIRST/LAST exactly when the target's default would place them elsewhere."""
-from pyvc.contract import contract, define, fields
+from pyvc.contract import contract, define, fields, uninterpreted
 
 # where NULLs sort for a sort key, from the meaning of the three NULL_ORDERING values:
 #   nulls_are_small: NULLs are the smallest values   (first under ASC, last under DESC)
@@ -55,4 +55,43 @@ contract(
     ],
     modifies=None,
     opaque={"self.sql": dict(returns="str"), "expression.args.get": dict(returns="any")},
+)
+
+# ------------------------------------------------------------------------------------------------------------------
+# The whole function, including the targets without a NULLS FIRST / LAST clause: every way out either keeps the NULL
+# placement the tree records, or reports it through Generator.unsupported (ghost counter), or is a sort key that is
+# never NULL (RAND()).  `need_first` is where the tree says NULLs sort; a CASE key `CASE WHEN k IS NULL THEN 1 ELSE 0
+# END [DESC]` puts NULL keys last when ascending and first when descending, whatever the target's default.
+fields(NULL_ORDERING_SUPPORTED="any")
+uninterpreted("sqlof", 2)     # Generator.sql(node, key): the text of a child (a function of the node here: nothing is mutated in between)
+uninterpreted("this_of", 1)   # Expression.this
+define("explicit_of", "lambda chg: ite(chg == ' NULLS FIRST', 1, ite(chg == ' NULLS LAST', -1, 0))")
+contract(
+    "sqlglot/generator.py", "Generator.ordered_sql", variant="full", props=["C02"],
+    types={"expression": "Expression", "nulls_sort_change": "str", "this": "str", "sort_order": "str", "target": "str", "operand_sql": "str", "null_sort_order": "str", "with_fill": "str"},
+    requires=["valid_ordering(self.dialect.NULL_ORDERING)"],
+    ensures=[
+        "result == this + sort_order + nulls_sort_change + with_fill",
+        "sort_order == ite(truthy(desc), ' DESC', ite(desc is False, ' ASC', ''))",
+        # (a) reported, or (b) the emitted clause (or its absence) yields the recorded placement on the key's own SQL,
+        # or (c) the CASE simulation with the right direction, or (d) a key that is never NULL
+        "ghost_unsup > 0"
+        " or (this is sqlof(expression, 'this') and eff_first(self.dialect.NULL_ORDERING, truthy(desc), explicit_of(nulls_sort_change)) == truthy(nulls_first))"
+        " or (self.NULL_ORDERING_SUPPORTED is None and nulls_sort_change == ''"
+        "     and defined('operand_sql') and defined('target')"
+        "     and this == 'CASE WHEN ' + local_or('operand_sql', '') + ' IS NULL THEN 1 ELSE 0 END' + ite(truthy(nulls_first), ' DESC', '') + ', ' + local_or('target', '')"
+        "     and (local_or('operand_sql', '') == local_or('target', '') or local_or('operand_sql', '') == '(' + local_or('target', '') + ')'))"
+        " or (self.NULL_ORDERING_SUPPORTED is None and nulls_sort_change == '' and this is sqlof(expression, 'this') and isinstance(this_of(expression), Rand))",
+    ],
+    modifies=None,
+    ghost={"counters": ["unsup"], "post_uses_final_locals": True, "max_paths": 60000,
+           "dynamic_isinstance": ["WINDOW_FUNCS_WITH_NULL_ORDERING"]},
+    opaque={
+        "self.sql": dict(returns="str", pure=True, uf="sqlof"), "expression.args.get": dict(returns="any"), "window.args.get": dict(returns="any"),
+        "expression.find_ancestor": dict(returns="Expression|none"),
+        "self.unsupported": dict(counter="unsup", returns="none"),
+        "self._resolve_ordered_for_null_ordering_simulation": dict(returns="Expression|none"),
+        "window_this.sql_name": dict(returns="str"), "ancestor.sql_name": dict(returns="str"), "spec.text": dict(returns="str"),
+        ".is_int": dict(returns="bool"), ".this": dict(returns="Expression", pure=True, uf="this_of"),
+    },
 )
